@@ -40,7 +40,7 @@ VERUS_PROPS = {
 }
 
 
-KANI_PROPS = {"C02", "C03", "C04", "C05", "C06", "C11", "C12", "C13", "C16"}
+KANI_PROPS = {"C02", "C03", "C04", "C05", "C06", "C08", "C11", "C12", "C13", "C16"}
 KANI_TRUSTED = [
     "Kani 0.68 / CBMC 6.11: MIR -> goto translation, IEEE-754 float model, the harness code in /verif/kani (asserted contracts, universal-probe closures, exact token format for serde)",
     "libm functions are not modelled deterministically by CBMC: no Kani harness compares two calls of an elementary function",
